@@ -173,6 +173,22 @@ def check_reaction_lines(run, w, lines, expected_rxns, label, writer, m, kw, act
                   '[%s] first number of %s is %s, the model gives %s' % (label, rxn.name, show(nums[0].value, 100),
                                                                          show(wantA, 100)), m, fn,
                   sample='[%s] %s: A field == model value' % (label, rxn.name))
+        if not rxn.attrs['is_adsorption'] and (side_of(rxn, 'transition_state') is None or not inc):
+            # reference written here (header of surf.inp: k = kb/h/site_den^(n-1) ..., n the number of surface
+            # species): without the entropy factor and with at most one surface reactant molecule - the bulk species
+            # of a site is no surface species - the factor is kB/h whatever the site-density operation
+            n_ref = 0
+            for sp, nu in zip(side_of(rxn, 'reactants').items, side_of(rxn, 'reactants_stoich').items):
+                site = sp.attrs['cat_site']
+                if sp.attrs['phase'].upper() == 'S' and site is not None and \
+                        sp.attrs['name'] != site.attrs['bulk_specie']:
+                    n_ref += int(nu.const_value())
+            if n_ref <= 1:
+                ref = I.D.sym('kb') / I.D.sym('h')
+                run.check(nums[0].value.eq(ref), 'REF.A', 'chemkin.' + writer, label + ' kB/h',
+                          '[%s] first number of %s is %s: with %d surface reactant molecule(s) (bulk species not counted) '
+                          'and no entropy factor it must be kB/h' % (label, rxn.name, show(nums[0].value, 100), n_ref),
+                          m, fn)
         run.check(nums[1].value.eq(rxn.attrs['beta']), 'DATAFLOW.beta', 'chemkin.' + writer, label + ' beta',
                   '[%s] temperature exponent of %s is %s' % (label, rxn.name, show(nums[1].value)), m, fn)
         if nums[2] is not None:
@@ -194,13 +210,15 @@ def mechanism(run, repo, two_sites):
     w.reaction('rs', [('a1', 1), ('vac', 1)], [('a2', 2)], ts=[('ts', 1)])
     w.reaction('rads', [('g1', 1), ('vac', 1)], [('a1', 1)], adsorption=True)
     w.reaction('rg2', [('g3', 1)], [('g1', 1), ('g2', 1)], ts=[('ts', 1)])
+    # the bulk species of the site takes part in a reaction (oxide formation): it belongs on the BULK line only
+    w.reaction('rbk', [('a1', 1), ('blk', 1)], [('a2', 1)])
     if two_sites:
         w.reaction('rb', [('b1', 2)], [('g2', 1)])
     T, P = D.sym('T'), D.sym('P')
     species_list = ListV(list(w.species.values()))
     tag = 'sites=%d' % (2 if two_sites else 1)
     # ---------------- gas.inp ----------------
-    for act in ('get_E_act', 'get_G_act', 'get_HoRT_act'):
+    for act in ('get_E_act', 'get_G_act', 'get_HoRT_act', 'get_GoRT_act', 'get_EoRT_act', 'get_H_act'):
         fn = m.functions['write_gas']
         out = I.call_function(m, fn, [], {'nasa_species': species_list, 'reactions': ListV(list(w.reactions)), 'T': T,
                                           'P': P, 'act_method_name': act})
@@ -228,7 +246,8 @@ def mechanism(run, repo, two_sites):
     # ---------------- surf.inp ----------------
     rci = repo.cls('pmutt.reaction.Reactions')
     rset = Obj('rset', rci, attrs={'reactions': ListV(list(w.reactions))})
-    for act, ads in (('get_E_act', 'get_H_act'), ('get_G_act', 'get_G_act')):
+    for act, ads in (('get_E_act', 'get_H_act'), ('get_G_act', 'get_G_act'), ('get_GoRT_act', 'get_GoRT_act'),
+                     ('get_H_act', 'get_H_act'), ('get_EoRT_act', 'get_HoRT_act')):
         for op in ('min', 'sum'):
             fn = m.functions['write_surf']
             out = I.call_function(m, fn, [], {'reactions': rset, 'T': T, 'P': P, 'act_method_name': act,
@@ -330,6 +349,18 @@ def mechanism(run, repo, two_sites):
             run.check(okd, 'DATAFLOW.option', 'chemkin.' + writer, tag + ' delimiters',
                       '[%s] the equation of %s is written as %s: the requested delimiters \' + \' and \' <=> \' must '
                       'separate its %d species' % (label, rxn.name, show(ln, 140), n_sp), m, fn)
+        # the reader gives back what the writer was given, whatever delimiters and number formats were asked for
+        from ..absre import NumPolicy
+        if two_sites:
+            continue            # the reader does not look at the site blocks: once is enough
+        for ro in (dict(opts, **extra),
+                   {'reaction_delimiter': '<=>', 'column_delimiter': '\t', 'float_format': ' .6E'}
+                   if writer == 'write_surf' else {'species_delimiter': ' + ', 'reaction_delimiter': ' = '}):
+            read_back(run, repo, w, writer, dict(kw, **ro), rx,
+                      '%s %s %s' % (tag, writer, ' '.join('%s=%r' % kv for kv in sorted(ro.items())
+                                                        if kv[0] in ('species_delimiter', 'reaction_delimiter',
+                                                                     'column_delimiter', 'float_format'))),
+                      NumPolicy(), delims=(ro.get('species_delimiter', '+'), ro['reaction_delimiter']))
     # every reaction in exactly one of the two files (complementary predicates on the same attribute)
     both = [r for r in w.reactions]
     n_gas = len([r for r in both if r.attrs['gas_phase'] is True])
@@ -358,7 +389,7 @@ def signed_quantity(seg):
     return not all(a.startswith(pos) or a.endswith(('_sites', '_stick')) for a in v.atoms())
 
 
-def read_back(run, repo, w, which, kwargs, expected, label, policy):
+def read_back(run, repo, w, which, kwargs, expected, label, policy, delims=('+', '=')):
     """write the file through the real writer, read it with the real read_reactions (regular expressions decided
     by absre on the abstract lines), compare species and stoichiometry with the model"""
     from ..absre import NumPolicy
@@ -425,7 +456,7 @@ def read_back(run, repo, w, which, kwargs, expected, label, policy):
         run.check(okp, 'TABLE.readback', 'chemkin.read_reactions', 'products',
                   '[%s] reaction %s is read back with products %s x %s, the model has %s x %s'
                   % (label, rxn.name, nm, show(pst.items[i], 60), want, show(side_of(rxn, 'products_stoich'), 60)), m, rfn)
-        want_eq = I.call_method(rxn, 'to_string', [], {'species_delimiter': '+', 'reaction_delimiter': '=',
+        want_eq = I.call_method(rxn, 'to_string', [], {'species_delimiter': delims[0], 'reaction_delimiter': delims[1],
                                                        'include_TS': False})
         run.check(show(I.seg(eqs.items[i]), 400) == show(I.seg(want_eq), 400), 'TABLE.readback',
                   'chemkin.read_reactions', 'equation text',
@@ -448,6 +479,36 @@ def read_back(run, repo, w, which, kwargs, expected, label, policy):
         run.note('pmutt/io/chemkin.py:%d regular expression %r: the outcome depends on the spelling of %s (%s, e.g. %r)'
                  % (node.lineno, pat, str(fld.value).strip(Z), what, spelled))
     I.num_policy = NumPolicy()
+
+
+def file_is_text(run, I, m, writer, kw, label):
+    """what the writer puts into the file it is given a name for is, line by line, the text it returns without one"""
+    fn = m.functions[writer]
+    fname = '/dir/%s.file.inp' % writer
+    txt = I.call_function(m, fn, [], dict(kw))
+    I.files.pop(fname, None)
+    out = I.call_function(m, fn, [], dict(kw, filename=fname))
+    if isinstance(txt, Raised) or isinstance(out, Raised):
+        run.fail('DATAFLOW.write', 'chemkin.' + writer, label + ' to a file', 'raises %s'
+                 % (out.exc if isinstance(out, Raised) else txt.exc), m, fn)
+        return
+    def data_lines(lines):
+        # comment lines (time stamp, explanations) carry nothing Chemkin reads
+        res = []
+        for ln in lines:
+            ln = ln.strip('rstrip', '\n')
+            if ln.segs and ln.segs[0].kind == 'lit' and ln.segs[0].text.startswith('!'):
+                continue
+            res.append(show(ln, 400))
+        return res
+    want = data_lines(I.seg(txt).splitlines())
+    got = data_lines(I.files.get(fname, []))
+    diff = [i for i, (a, b) in enumerate(zip(got, want)) if a != b]
+    run.check(got == want, 'DATAFLOW.file', 'chemkin.' + writer, label + ' file == returned text',
+              '[%s] written with filename=: %d data lines in the file, the text returned without a file name has %d%s'
+              % (label, len(got), len(want), '; first different line %d: %s' % (diff[0] + 1, got[diff[0]][:120])
+                 if diff else ''), m, fn, sample='%s: lines of the file == lines of the returned text (%d)'
+              % (writer, len(want)))
 
 
 def ea_files(run, repo, w):
@@ -474,6 +535,12 @@ def ea_files(run, repo, w):
                       m, fn, sample='[%s] declared == written == %d' % (label, len(want)))
             for ln, r in zip(rx_lines, want):
                 nums = [f for f in fields_of(ln) if f.cls == 'num']
+                # the equation is the reaction's own: reactants then products, nothing else (no transition state)
+                names = [f.value for f in fields_of(ln) if f.cls != 'num']
+                want_names = [sp.attrs['name'] for sp in side_of(r, 'reactants').items + side_of(r, 'products').items]
+                run.check(names == want_names, 'DATAFLOW.equation', 'chemkin.write_EA', 'equation',
+                          '[%s] the equation of %s lists species %s, expected its reactants and products %s'
+                          % (label, r.name, names, want_names), m, fn)
                 meth_ = ads if r.attrs['is_adsorption'] else act
                 if side_of(r, 'transition_state') is None and meth_ in ('get_EoRT_act', 'get_E_act'):
                     lit = ''.join(s_.text for s_ in ln.segs if s_.kind == 'lit')
@@ -490,6 +557,8 @@ def ea_files(run, repo, w):
                 run.check(ok, 'DATAFLOW.EA', 'chemkin.write_EA', 'value per condition',
                           '[%s] the values written for %s are not the %s of the reaction at each run condition'
                           % (label, r.name, ads if r.attrs['is_adsorption'] else act), m, fn)
+    file_is_text(run, I, m, 'write_EA', {'reactions': ListV(list(w.reactions)), 'conditions': conds,
+                                         'act_method_name': 'get_GoRT_act', 'ads_act_method': 'get_GoRT_act'}, 'EAs.inp')
 
 
 def run_files(run, repo):
@@ -512,6 +581,7 @@ def run_files(run, repo):
         run.check(ok, 'DATAFLOW.T_flow', 'chemkin.write_T_flow', 'run lines',
                   'each run line must carry T, P, Q, abyv of that run in this order and its run number: %s'
                   % show(out, 200), m, fn, sample='T_flow.inp: line i == (T_i, P_i, Q_i, abyv_i, i)')
+        file_is_text(run, I, m, 'write_T_flow', {'T': Ts, 'P': Ps, 'Q': Qs, 'abyv': As}, 'T_flow.inp')
     # tube_mole.inp
     fn = m.functions['write_tube_mole']
     names = {}
@@ -551,6 +621,8 @@ def run_files(run, repo):
         run.check(ok, 'DATAFLOW.mole-fraction', 'chemkin.write_tube_mole', 'values per run',
                   'line of %s does not carry its mole fraction in every run (0 when absent): %s' % (s_.name, show(ln, 160)),
                   m, fn)
+    file_is_text(run, I, m, 'write_tube_mole', {'mole_frac_conditions': conds, 'nasa_species': ListV(sp)},
+                 'tube_mole.inp')
 
 
 def number_formats(run, repo, w):
